@@ -576,12 +576,19 @@ func (c *Ctx) uploadEntryRule(rule string, gates map[*ssa.Function]bool, finClos
 		}
 		nUp++
 		// the looked-up entry: result of a gcsca function returning *Entry
+		// (in the upload function or in an unexported helper it is split into: certObjectFor(manifest, name, cert)
+		// (object string, inManifest bool) — the flag set there is part of the path state the caller continues with)
 		var lookups []ssa.Value
-		for _, call := range callsIn(f, func(call ssa.CallInstruction) bool {
-			cal := call.Common().StaticCallee()
-			return cal != nil && load.RelPkg(cal) == "sign/gcsca" && cal.Signature.Results().Len() == 1 && isEntryPtr(cal.Signature.Results().At(0).Type())
-		}) {
-			lookups = append(lookups, call.Value())
+		for _, lf := range unexportedRegion(f) {
+			if gates[lf] {
+				continue
+			}
+			for _, call := range callsIn(lf, func(call ssa.CallInstruction) bool {
+				cal := call.Common().StaticCallee()
+				return cal != nil && load.RelPkg(cal) == "sign/gcsca" && cal.Signature.Results().Len() == 1 && isEntryPtr(cal.Signature.Results().At(0).Type())
+			}) {
+				lookups = append(lookups, call.Value())
+			}
 		}
 		const (
 			bGate uint = iota
